@@ -386,7 +386,9 @@ pub struct Observed {
 
 /// Splits NO_COLOR stderr into diagnostic blocks (multiset, sorted).
 pub fn parse_diags(stderr: &str, root: &Path) -> Vec<String> {
-    let root_s = root.to_string_lossy().to_string();
+    // The directory that holds the project (and its path dependencies) is what differs
+    // between the history tree and the reference tree.
+    let root_s = root.parent().unwrap_or(root).to_string_lossy().to_string();
     let mut blocks: Vec<String> = vec![];
     let mut cur: Option<String> = None;
     for line in stderr.lines() {
@@ -416,7 +418,7 @@ pub fn parse_diags(stderr: &str, root: &Path) -> Vec<String> {
 }
 
 pub fn normalise(data: &[u8], root: &Path) -> Vec<u8> {
-    let root_s = root.to_string_lossy().to_string();
+    let root_s = root.parent().unwrap_or(root).to_string_lossy().to_string();
     match std::str::from_utf8(data) {
         Ok(s) => s.replace(&root_s, "$ROOT").into_bytes(),
         Err(_) => data.to_vec(),
